@@ -38,7 +38,7 @@ import (
 // programs
 
 type Prog struct {
-	Op   byte // T N Z M B L K G R E P C Y
+	Op   byte // T N Z M B L F K G R E P C V Y   (F: Body[0] is the closing value T/N/Z)
 	N    int
 	Body []*Prog
 }
@@ -49,8 +49,8 @@ func (p *Prog) String() string {
 		return string(p.Op) + strconv.Itoa(p.N)
 	case 'N', 'Z', 'K', 'R', 'Y':
 		return string(p.Op)
-	case 'L':
-		return "L" + strconv.Itoa(p.N) + "(" + seqString(p.Body) + ")"
+	case 'L', 'F':
+		return string(p.Op) + strconv.Itoa(p.N) + "(" + seqString(p.Body) + ")"
 	}
 	return string(p.Op) + "(" + seqString(p.Body) + ")"
 }
@@ -114,6 +114,31 @@ func (r *renderer) stat(p *Prog, labels []*string) {
 		r.blockWithLabel("do\n", "end", p.Body, labels)
 	case 'L':
 		r.blockWithLabel(fmt.Sprintf("for _ = 1, %d do\n", p.N), "end", p.Body, labels)
+	case 'F':
+		// generic for with a closing value: two levels for goto indices (the body, the implicit block that
+		// holds the closing value); both labels stand right after the loop
+		closing := "nil"
+		switch p.Body[0].Op {
+		case 'T':
+			closing = fmt.Sprintf("mk(%d)", p.Body[0].N)
+		case 'Z':
+			closing = "42"
+		}
+		var lbl string
+		fmt.Fprintf(w, "for _ in iter(%d), nil, nil, %s do\n", p.N, closing)
+		r.seq(p.Body[1:], append([]*string{&lbl, &lbl}, labels...))
+		w.WriteString("end")
+		if lbl != "" {
+			w.WriteString(" ::" + lbl + "::")
+			if !r.trail {
+				w.WriteString(" do end")
+			}
+		}
+		w.WriteString("\n")
+	case 'V':
+		w.WriteString("do return (function()\n")
+		r.seq(p.Body, nil)
+		w.WriteString("end)() end\n")
 	case 'K':
 		w.WriteString("break\n")
 	case 'G':
@@ -227,6 +252,10 @@ func newEnv() *env {
 		return c.Next(), nil
 	}, 2, false)
 	prelude := `
+function iter(n)
+  local i = 0
+  return function() i = i + 1 if i <= n then return i end end
+end
 function mk(id)
   return setmetatable({}, {__close = function(_, e)
     local r = rec_close(id, e)
@@ -284,10 +313,13 @@ func skeleton(unit *code.Unit) string {
 				out = append(out, "push")
 			case strings.HasPrefix(ins, "cltrunc "):
 				out = append(out, "trunc"+strings.TrimPrefix(ins, "cltrunc "))
-			case strings.HasPrefix(ins, "jump "):
+			case strings.HasPrefix(ins, "jump +"):
+				// forward jumps are break/goto; the backward jump of a generic for is the loop itself
 				out = append(out, "jump")
 			case ins == "tailcall r0":
 				out = append(out, "ret")
+			case strings.HasPrefix(ins, "tailcall "):
+				out = append(out, "tcall")
 			}
 			if m := reClos.FindStringSubmatch(ins); m != nil {
 				kk, _ := strconv.Atoi(m[1])
@@ -373,7 +405,7 @@ func parseSeq(s string, i int) ([]*Prog, int, error) {
 		case 'N', 'Z', 'K', 'R', 'Y':
 			out = append(out, &Prog{Op: c})
 			i++
-		case 'T', 'M', 'G', 'E', 'L':
+		case 'T', 'M', 'G', 'E', 'L', 'F':
 			j := i + 1
 			for j < len(s) && s[j] >= '0' && s[j] <= '9' {
 				j++
@@ -382,7 +414,7 @@ func parseSeq(s string, i int) ([]*Prog, int, error) {
 			if err != nil {
 				return nil, 0, fmt.Errorf("number expected at %d", i+1)
 			}
-			if c == 'L' {
+			if c == 'L' || c == 'F' {
 				if j >= len(s) || s[j] != '(' {
 					return nil, 0, fmt.Errorf("( expected at %d", j)
 				}
@@ -390,13 +422,13 @@ func parseSeq(s string, i int) ([]*Prog, int, error) {
 				if err != nil {
 					return nil, 0, err
 				}
-				out = append(out, &Prog{Op: 'L', N: n, Body: body})
+				out = append(out, &Prog{Op: c, N: n, Body: body})
 				i = k
 			} else {
 				out = append(out, &Prog{Op: c, N: n})
 				i = j
 			}
-		case 'B', 'P', 'C':
+		case 'B', 'P', 'C', 'V':
 			if i+1 >= len(s) || s[i+1] != '(' {
 				return nil, 0, fmt.Errorf("( expected at %d", i+1)
 			}
@@ -481,10 +513,17 @@ func (c *chain) build() ([]*Prog, []int) {
 		out = append(out, M(mark))
 		if l < len(c.kinds) {
 			n := 0
-			if c.kinds[l] == 'L' {
+			if c.kinds[l] == 'L' || c.kinds[l] == 'F' {
 				n = 2
 			}
-			out = append(out, comp(c.kinds[l], n, level(l+1)))
+			inner := level(l + 1)
+			if c.kinds[l] == 'F' {
+				// the closing value of the generic for
+				id++
+				ids = append(ids, id)
+				inner = append([]*Prog{T(id)}, inner...)
+			}
+			out = append(out, comp(c.kinds[l], n, inner))
 			if c.trailing {
 				return out
 			}
@@ -509,24 +548,32 @@ func (c *chain) build() ([]*Prog, []int) {
 // exits valid at level l of the chain: break needs an enclosing loop within the same function,
 // goto k needs k+1 enclosing blocks/loop bodies within the same function.
 func (c *chain) exitsAt(l int) []*Prog {
-	out := []*Prog{nil, op('R'), opn('E', 90), op('Z'), op('Y')}
-	blocks := 0
+	out := []*Prog{nil, op('R'), opn('E', 90), op('Z'), op('Y'), comp('V', 0, []*Prog{M(99)})}
+	// goto levels seen from level l, innermost first; a generic for counts twice (its body, the implicit
+	// block holding the closing value) and its body level cannot be named by a Lua label
+	var allowed []bool
 	inLoop := false
 	for i := l - 1; i >= 0; i-- {
 		k := c.kinds[i]
 		if k == 'P' || k == 'C' {
 			break
 		}
-		blocks++
-		if k == 'L' {
+		if k == 'F' {
+			allowed = append(allowed, false, true)
+		} else {
+			allowed = append(allowed, true)
+		}
+		if k == 'L' || k == 'F' {
 			inLoop = true
 		}
 	}
 	if inLoop {
 		out = append(out, op('K'))
 	}
-	for k := 0; k < blocks; k++ {
-		out = append(out, opn('G', k))
+	for k, ok := range allowed {
+		if ok {
+			out = append(out, opn('G', k))
+		}
 	}
 	return out
 }
@@ -551,7 +598,7 @@ func handlerConfigs(ids []int, rich bool) []map[int]handler {
 }
 
 func enumChains(maxDepth, maxTbc int, emit func(c *chain)) {
-	kinds := []byte{'B', 'L', 'P', 'C'}
+	kinds := []byte{'B', 'L', 'P', 'C', 'F'}
 	var rec func(d int, ks []byte)
 	rec = func(d int, ks []byte) {
 		// all pre/post assignments
@@ -614,7 +661,7 @@ type rgen struct {
 	yield bool
 }
 
-func (g *rgen) seq(depth, blocks int, inLoop bool) []*Prog {
+func (g *rgen) seq(depth int, levels []bool, inLoop bool) []*Prog {
 	n := 1 + g.rng.Below(4)
 	var out []*Prog
 	for i := 0; i < n; i++ {
@@ -629,14 +676,26 @@ func (g *rgen) seq(depth, blocks int, inLoop bool) []*Prog {
 			g.mark++
 			out = append(out, M(g.mark))
 		case r < 13 && depth > 0:
-			k := []byte{'B', 'L', 'P', 'C', 'B', 'L'}[g.rng.Below(6)]
+			k := []byte{'B', 'L', 'P', 'C', 'B', 'L', 'F', 'V'}[g.rng.Below(8)]
 			switch k {
 			case 'B':
-				out = append(out, comp('B', 0, g.seq(depth-1, blocks+1, inLoop)))
+				out = append(out, comp('B', 0, g.seq(depth-1, append([]bool{true}, levels...), inLoop)))
 			case 'L':
-				out = append(out, comp('L', 1+g.rng.Below(2), g.seq(depth-1, blocks+1, true)))
+				out = append(out, comp('L', 1+g.rng.Below(2), g.seq(depth-1, append([]bool{true}, levels...), true)))
+			case 'F':
+				var cv *Prog
+				switch g.rng.Below(6) {
+				case 0:
+					cv = op('N')
+				default:
+					g.id++
+					g.ids = append(g.ids, g.id)
+					cv = T(g.id)
+				}
+				body := g.seq(depth-1, append([]bool{false, true}, levels...), true)
+				out = append(out, comp('F', 1+g.rng.Below(2), append([]*Prog{cv}, body...)))
 			default:
-				out = append(out, comp(k, 0, g.seq(depth-1, 0, false)))
+				out = append(out, comp(k, 0, g.seq(depth-1, nil, false)))
 			}
 		case r == 13:
 			out = append(out, op('R'))
@@ -644,8 +703,10 @@ func (g *rgen) seq(depth, blocks int, inLoop bool) []*Prog {
 			out = append(out, opn('E', 90+g.rng.Below(3)))
 		case r == 15 && inLoop:
 			out = append(out, op('K'))
-		case r == 16 && blocks > 0:
-			out = append(out, opn('G', g.rng.Below(blocks)))
+		case r == 16 && len(levels) > 0:
+			if k := g.rng.Below(len(levels)); levels[k] {
+				out = append(out, opn('G', k))
+			}
 		case r == 17 && g.rng.Chance(30):
 			out = append(out, op('Z'))
 		case r == 18 && g.yield:
@@ -679,16 +740,16 @@ func main() {
 		n := 0
 		enumChains(maxDepth, 3, func(c *chain) {
 			depth := len(c.kinds)
-			// quick: everything up to depth 1, seeded samples of depth 2 (1 in 6) and depth 3 (1 in 80);
-			// thorough: everything up to depth 2, a seeded 1-in-6 sample of depth 3
-			if !thorough && ((depth == 2 && rng.Below(6) != 0) || (depth == 3 && rng.Below(80) != 0)) {
+			// quick: everything up to depth 1, seeded samples of depth 2 (1 in 16) and depth 3 (1 in 200);
+			// thorough: everything up to depth 2, a seeded 1-in-20 sample of depth 3
+			if !thorough && ((depth == 2 && rng.Below(16) != 0) || (depth == 3 && rng.Below(200) != 0)) {
 				return
 			}
-			if thorough && depth == 3 && rng.Below(6) != 0 {
+			if thorough && depth == 3 && rng.Below(20) != 0 {
 				return
 			}
 			body, ids := c.build()
-			for hi, hs := range handlerConfigs(ids, (thorough && depth <= 2) || depth <= 1) {
+			for hi, hs := range handlerConfigs(ids, (thorough && depth <= 2) || depth == 0) {
 				if !thorough && depth >= 2 && hi > 0 && rng.Below(3) != 0 {
 					continue
 				}
@@ -723,7 +784,7 @@ func main() {
 			g := &rgen{rng: rng}
 			variant := []string{"pcall", "pcall", "co", "trail", "coclose"}[rng.Below(5)]
 			g.yield = variant == "coclose"
-			body := g.seq(2+rng.Below(3), 0, false)
+			body := g.seq(2+rng.Below(3), nil, false)
 			hs := map[int]handler{}
 			for _, id := range g.ids {
 				if rng.Chance(25) {
